@@ -340,6 +340,17 @@ func ZZC13Pairs() {
 	r2 := sc.Validate(json.New("d", d2))
 	v.Assert(r1 == nil, "C13/doc-example-rejected")
 	v.Assert((r1 == nil) == (r2 == nil), "C13/validation-verdict-changes-with-document-spelling")
+	// a document key spelled with escapes, against a key shortcut with a bare and with a ruled key type
+	kt := []string{`"a/b"`, `"a/b" // {minLength: 3}`, `"a/b" // {regex: "^a/b$"}`, `"a/b" // {enum: ["a/b", "c"]}`}[v.Choose(0, 3)]
+	v.Observe("keytype", kt)
+	ks := jschema.New("s", "{\n  @k: 1\n}")
+	v.Assert(ks.AddType("@k", jschema.New("@k", kt)) == nil, "C13/doc-schema-rejected")
+	k2 := []string{`a\/b`, `\u0061/b`, `a\u002fb`}[v.Choose(0, 2)]
+	v.Observe("key2", k2)
+	kr1 := ks.Validate(json.New("d", `{"a/b":1}`))
+	kr2 := ks.Validate(json.New("d", `{"`+k2+`":1}`))
+	v.Assert(kr1 == nil, "C13/doc-example-rejected")
+	v.Assert((kr1 == nil) == (kr2 == nil), "C13/validation-verdict-changes-with-document-spelling")
 	v.Reach("C13/pairs")
 }
 
